@@ -181,7 +181,7 @@ func c04Check(c *kit.Case, h *kit.XHistory, desc string, plain bool, keyPrefix s
 // c04History builds a history from an action code: per revision and object one
 // of leave / define / free, read from code in base 3.
 func c04History(c *kit.Case, nrev, nobj int, code int, kinds []string, version string) (*kit.XHistory, string) {
-	h := &kit.XHistory{Version: version}
+	h := &kit.XHistory{Version: version, CompressRefs: c.Rng.Bool()}
 	type st struct {
 		defined bool
 		free    bool
@@ -412,6 +412,9 @@ func TestVerifC04(t *testing.T) {
 			what = "too-large"
 		case 3:
 			dict["Length"] = int64(len(body) + 100000)
+			if c.Rng.Bool() {
+				dict["Length"] = kit.Pick(c.Rng, []int64{1 << 31, 1 << 40, 1<<63 - 1, 1<<63 - 50, 1<<62 + 7})
+			}
 			what = "beyond-eof"
 		case 4:
 			dict["Length"] = int64(-1 - c.Rng.Intn(100))
